@@ -13,7 +13,7 @@ import random
 from .. import core
 
 SPELL = {
-    "X": ["x", "K", "é", "~", ",", "1", "-"], "AND": ["and", "AND", "aNd", "And"], "AN": ["an", "AN", "aN"], "D": ["d", "D"],
+    "X": ["x", "K", "é", "~", ",", "1", "-", "ß", "İ", "ﬁ", "ſ", "\u00a0"], "AND": ["and", "AND", "aNd", "And"], "AN": ["an", "AN", "aN"], "D": ["d", "D"],
     "W": [" ", "\t", "\n", "\r"], "LB": ["{"], "RB": ["}"], "ESCX": ["\\'", "\\o", "\\x", "\\{", "\\}"], "ESCA": ["\\a", "\\A"],
     "ESCW": ["\\ ", "\\\n"],
 }
@@ -131,7 +131,8 @@ def report(chk, clause, text, got, want, how):
 
 def random_list(rnd):
     words = ["Knuth", "Donald", "E.", "de", "la", "van", "{and}", "{Simon and Schuster}", "Andersen", "Sand", "and", "AND", "\\'Etienne",
-             "{\\'E}douard", "J.~R.", "d'Alembert", "Land,", "Jr,", "andy", "Brand", "\\and", "an", "d", "{", "}", "\\", "x~and~y", "\\ "]
+             "{\\'E}douard", "J.~R.", "d'Alembert", "Land,", "Jr,", "andy", "Brand", "\\and", "an", "d", "{", "}", "\\", "x~and~y", "\\ ",
+             "Strauß,", "İnan", "ﬁscher", "Großmann", "ａｎｄ", "ſand", "and\u00a0", "\u2003and"]
     names = []
     for _ in range(rnd.randint(1, 60)):
         names.append(rnd.choice([" ", "\t", "\n", "  "]).join(rnd.choice(words) for _ in range(rnd.randint(1, 4))))
